@@ -37,7 +37,10 @@ impl OutputFormatter {
     /// Generate base output according to the specified format
     fn format_base_output(zerv_object: &Zerv, output_format: &str) -> Result<String, ZervError> {
         match output_format {
-            formats::PEP440 => Ok(PEP440::from(zerv_object.clone()).to_string()),
+            formats::PEP440 => {
+                Self::check_pep440_range(zerv_object)?;
+                Ok(PEP440::from(zerv_object.clone()).to_string())
+            }
             formats::SEMVER => Ok(SemVer::from(zerv_object.clone()).to_string()),
             formats::ZERV => Ok(zerv_object.to_string()),
             format => Err(ZervError::UnknownFormat(format!(
@@ -46,6 +49,32 @@ impl OutputFormatter {
                 formats::SUPPORTED_FORMATS.join(", ")
             ))),
         }
+    }
+
+    /// PEP 440 numbers are stored as u32; a larger version number would silently be dropped
+    /// or moved into the local segment, so refuse to render it
+    fn check_pep440_range(zerv_object: &Zerv) -> Result<(), ZervError> {
+        let vars = &zerv_object.vars;
+        let fields = [
+            ("major", vars.major),
+            ("minor", vars.minor),
+            ("patch", vars.patch),
+            ("epoch", vars.epoch),
+            ("pre-release number", vars.pre_release.as_ref().and_then(|pr| pr.number)),
+            ("post", vars.post),
+            ("dev", vars.dev),
+        ];
+        for (name, value) in fields {
+            if let Some(n) = value
+                && n > u32::MAX as u64
+            {
+                return Err(ZervError::InvalidVersion(format!(
+                    "{name} {n} cannot be represented in PEP440 (maximum {})",
+                    u32::MAX
+                )));
+            }
+        }
+        Ok(())
     }
 
     /// Get list of supported output formats
